@@ -13,7 +13,8 @@ EXPLANATION = (
     "earlier chain before scheduling; (d) who-may-call on send_query / send_query_vec / send_query_on_intf: every call "
     "site is classified in a frozen table into the query sources the statement allows (schedule, refresh, ≤3 follow-ups, "
     "new interface, verify); the follow-up count is bounded by try_count < 3.  Decides the schedule's shape, not rates "
-    "over long horizons.")
+    "over long horizons."
+    " The purge of a restarted ResolveHostname search compares lower-cased names on both sides.")
 UNDECIDED = ["query rates over long horizons as numbers", "interplay of refresh queries and the schedule"]
 
 # frozen classification of query sources (function -> class); a caller not in the table is an unclassified source
